@@ -62,9 +62,16 @@ LETTERS = (120, 121, 122, 88, 89, 90)
 TOL_TRAJ = 1e-9
 TOL_POSE0 = 1e-12     # kinematics only (no inertia involved): observed <= ~1e-15
 # fusing a static body merges inertias through mjuu_fullInertia / mjuu_eig3, whose Jacobi loop stops at a rotation of
-# 1.4e-6 rad (cos > 1 - 1e-12): the fused body's tensor is only accurate to ~1e-6 relative (observed 5e-10 on the
-# tensor, 2e-7 on 200-step trajectories), so the dynamic comparison for fusestatic uses a wider tolerance
-TOL_KIND = {"fusestatic": 1e-4}
+# 1.4e-6 rad (cos > 1 - 1e-12): the fused body's tensor is only accurate to ~1e-6 relative.  Along two SEPARATELY integrated
+# trajectories such a difference drifts quadratically in time (a free body with 2e-8 relative difference in qacc at step 0 is
+# 5e-4 apart after 200 steps although the scene does not amplify perturbations), so an absolute 1e-4 bound on the 200-step
+# deviation raised false alarms in the thorough tier (4 of 1199 pairs, seeds 0-3: 2.1e-4 ... 5.1e-4; everything else <= 1.8e-5).
+# The fusestatic rewriting is therefore judged (a) by the accelerations of the two models AT THE SAME STATE (B evaluated at
+# A's state every 50 steps; observed <= 4.1e-5 relative over those 1199 pairs, bound 1e-3) and (b) by a 200-step bound of
+# 1e-2 (20x the largest observed drift); a rewriting that changes the physics (dropped mass, wrong frame, lost joint
+# parameter) is far outside both
+TOL_KIND = {"fusestatic": 1e-2}
+TOL_QACC_MATCHED = {"fusestatic": 1e-3}
 TOL_ROT = 1e-12
 # attach vs inline with Python-computed quaternions and radians: body / geom / camera poses, qpos0, qpos_spring, jnt_range,
 # inertias of the two compiled models (observed <= 1e-14; the inertia eigen-decomposition is only accurate to ~1e-6 for
@@ -1208,6 +1215,8 @@ def pairs_oracle(ctx, impl):
         kind = tag.split(":")[0] + (":" + tag.split(":")[1] if tag.startswith("frames") else "")
         s = stats.setdefault(kind, {"n": 0, "maxdev": 0.0, "maxdev_initial_pose": 0.0, "static_same": 0, "errors": 0})
         m = re.match(r"maxdev=(\S+) dev0=(\S+) nmatched=(\d+) nqA=(\d+) nqB=(\d+) numdev=(\S+) unstable=(\d+) refs=(\S+) static=(\S+)", out)
+        mq = re.search(r" amp=(\S+) qaccm=(\S+)", out)
+        amp, qaccm = (float(mq.group(1)), float(mq.group(2))) if mq else (0.0, 0.0)
         rp = {"rewriting": tag, "impl_output": out, "block": blk[:30000], "replay": "feed the block to <c36_equiv harness>"}
         if not m:
             s["errors"] += 1
@@ -1231,6 +1240,8 @@ def pairs_oracle(ctx, impl):
             dev = 0.0
         s["n"] += 1
         s["maxdev"] = max(s["maxdev"], dev)
+        if not unstable:
+            s["max_qacc_dev_at_matched_states"] = max(s.get("max_qacc_dev_at_matched_states", 0.0), qaccm)
         s["maxdev_initial_pose"] = max(s["maxdev_initial_pose"], dev0)
         if kind.startswith("attach"):
             s["maxdev_compiled_values"] = max(s.get("maxdev_compiled_values", 0.0), numdev)
@@ -1245,6 +1256,9 @@ def pairs_oracle(ctx, impl):
             bad = ("dofs", "the two descriptions have different numbers of coordinates (%d vs %d)" % (nqa, nqb))
         elif not (dev0 <= TOL_POSE0):
             bad = ("initial-pose", "poses of kept bodies / sites in the initial configuration deviate by %g (> %g)" % (dev0, TOL_POSE0))
+        elif kind in TOL_QACC_MATCHED and not unstable and not (qaccm <= TOL_QACC_MATCHED[kind]):
+            bad = ("acceleration-at-matched-state", "accelerations of the two compiled models at the same state deviate by %g (> %g)"
+                   % (qaccm, TOL_QACC_MATCHED[kind]))
         elif not (dev <= TOL_KIND.get(kind, TOL_TRAJ)):
             bad = ("trajectory", "poses of kept bodies / sites deviate by %g (> %g) within 200 steps" % (dev, TOL_KIND.get(kind, TOL_TRAJ)))
         elif kind in EXACT_STATIC and static != "same":
